@@ -115,6 +115,8 @@ Ltac rule nt rhs := apply (derive_rule _ nt rhs); [use_prod|].
    (MCNP_Parser in parser_base.py) *)
 Definition required_base : list production := [
   ("padding", ["SPACE"]);
+  ("padding", ["DOLLAR_COMMENT"]);
+  ("padding", ["COMMENT"]);
   ("padding", ["padding"; "SPACE"]);
   ("padding", ["padding"; "DOLLAR_COMMENT"]);
   ("padding", ["padding"; "COMMENT"]);
@@ -194,11 +196,17 @@ Proof.
     apply IH; auto. apply pad_ext; auto.
 Qed.
 
-Lemma pad_space_list : forall rest, Forall padc rest -> Derives G "padding" ("SPACE" :: rest).
+Definition padstart (c : string) : Prop := c = "SPACE" \/ c = "DOLLAR_COMMENT" \/ c = "COMMENT".
+Lemma pad_start_list : forall c rest, padstart c -> Forall padc rest -> Derives G "padding" (c :: rest).
 Proof.
-  intros rest H. change ("SPACE" :: rest) with (["SPACE"] ++ rest). apply pad_ext_list; auto.
-  rule "padding" ["SPACE"]. dend.
+  intros c rest Hc H. change (c :: rest) with ([c] ++ rest). apply pad_ext_list; auto.
+  destruct Hc as [E|[E|E]]; subst.
+  - rule "padding" ["SPACE"]. dend.
+  - rule "padding" ["DOLLAR_COMMENT"]. dend.
+  - rule "padding" ["COMMENT"]. dend.
 Qed.
+Lemma pad_space_list : forall rest, Forall padc rest -> Derives G "padding" ("SPACE" :: rest).
+Proof. intros rest H. apply pad_start_list; [left; reflexivity|exact H]. Qed.
 
 Lemma sp_tok_padc : forall s, Forall padc (classes (sp_tok s)).
 Proof. destruct s; simpl; constructor; [unfold padc; auto|constructor]. Qed.
@@ -227,6 +235,11 @@ Proof.
     + rewrite !classes_cons, cline_tok_class. cbn [fst]. apply pad_space_list.
       constructor; [unfold padc; auto|]. apply comment_rest_padc.
   - apply pad_space_list. constructor; [unfold padc; auto 6|]. constructor; [unfold padc; auto|]. constructor.
+  - destruct c as [ind b]. destruct ind as [|k]; cbn [spaces sp_tok app].
+    + rewrite classes_cons, cline_tok_class. apply pad_start_list; [right; right; reflexivity|].
+      apply comment_rest_padc.
+    + rewrite !classes_cons, cline_tok_class. cbn [fst]. apply pad_space_list.
+      constructor; [unfold padc; auto|]. apply comment_rest_padc.
 Qed.
 
 (* ---- numbers *)
@@ -968,7 +981,10 @@ Definition required_data_only : list production := [
   ("kitchen_junk", ["particle_sequence"]);
   ("kitchen_junk", ["number_sequence"]);
   ("data_prefix", ["TALLY_COMMENT"]);
-  ("data_prefix", ["SOURCE_COMMENT"])
+  ("data_prefix", ["SOURCE_COMMENT"]);
+  ("parameter", ["classifier"; "param_seperator"; "text_phrase"]);
+  ("text_phrase", ["TEXT"]);
+  ("text_phrase", ["TEXT"; "padding"])
 ].
 Definition required_data : list production :=
   required_base ++ required_params ++ required_intro ++ required_particles ++ required_data_only.
@@ -1021,11 +1037,17 @@ Proof.
     - rule "data_prefix" ["TEXT"]. dend.
     - rule "data_prefix" ["KEYWORD"]. dend.
     - rule "data_prefix" ["PARTICLE"]. dend. }
-  rule "parameter" ["classifier"; "param_seperator"; "number_sequence"].
-  change (word_class (dp_key p) :: classes (sep_toks (dp_sep p)) ++ classes (nlist_toks (dp_val p)))
-    with ([word_class (dp_key p)] ++ classes (sep_toks (dp_sep p)) ++ classes (nlist_toks (dp_val p))).
-  apply DF_cons; [exact Hk|]. apply DF_cons; [apply sep_derives; [exact Hd_base|exact Hd_par]|].
-  apply DF_last. apply (nlist_derives G Hd_base _ H).
+  change (word_class (dp_key p) :: classes (sep_toks (dp_sep p)) ++ classes (dpval_toks (dp_val p)))
+    with ([word_class (dp_key p)] ++ classes (sep_toks (dp_sep p)) ++ classes (dpval_toks (dp_val p))).
+  destruct (dp_val p) as [l|w q]; cbn [dpval_toks].
+  - rule "parameter" ["classifier"; "param_seperator"; "number_sequence"].
+    apply DF_cons; [exact Hk|]. apply DF_cons; [apply sep_derives; [exact Hd_base|exact Hd_par]|].
+    apply DF_last. apply (nlist_derives G Hd_base _ H).
+  - rule "parameter" ["classifier"; "param_seperator"; "text_phrase"].
+    apply DF_cons; [exact Hk|]. apply DF_cons; [apply sep_derives; [exact Hd_base|exact Hd_par]|].
+    apply DF_last. rewrite classes_cons. cbn [fst]. destruct q as [q|]; simpl opad_toks.
+    + rule "text_phrase" ["TEXT"; "padding"]. dtok. apply DF_last. apply pad_derives; exact Hd_base.
+    + rule "text_phrase" ["TEXT"]. dend.
 Qed.
 
 Theorem data_derivable : forall d, data_shape d -> Derives G "data_input" (classes (data_toks d)).
@@ -1665,3 +1687,81 @@ Proof.
   apply (lr_loop_sound _ [] ts 0 []) in H; [exact H|]. constructor.
 Qed.
 End LRSound.
+
+(* ------------------------------------------------------------------ either case *)
+Lemma apply_mask_classes : forall mask ts cur, classes (apply_mask mask cur ts) = classes ts.
+Proof.
+  induction ts as [|t ts IH]; intros cur; simpl; [reflexivity|].
+  destruct cur as [|b cur]; [destruct mask as [|b m']|]; simpl; try rewrite IH; reflexivity.
+Qed.
+
+Lemma gen_case_classes : forall mask sh, classes (gen_case mask sh) = classes (gen sh).
+Proof. intros. unfold gen_case. apply apply_mask_classes. Qed.
+
+(* ------------------------------------------------------------------ every shape, through the table of its parser *)
+Definition productions_of (n : string) : list production :=
+  if String.eqb n "cell" then Gen.Grammar.cell_productions
+  else if String.eqb n "surface" then Gen.Grammar.surface_productions
+  else if String.eqb n "data" then Gen.Grammar.data_productions
+  else if String.eqb n "material" then Gen.Grammar.material_productions
+  else if String.eqb n "thermal" then Gen.Grammar.thermal_productions
+  else if String.eqb n "tally" then Gen.Grammar.tally_productions
+  else if String.eqb n "tally_seg" then Gen.Grammar.tally_seg_productions
+  else if String.eqb n "param_only" then Gen.Grammar.param_only_productions
+  else if String.eqb n "classifier" then Gen.Grammar.classifier_productions
+  else [].
+Definition start_of (n : string) : string :=
+  if String.eqb n "cell" then Gen.Grammar.cell_start
+  else if String.eqb n "surface" then Gen.Grammar.surface_start
+  else if String.eqb n "data" then Gen.Grammar.data_start
+  else if String.eqb n "material" then Gen.Grammar.material_start
+  else if String.eqb n "thermal" then Gen.Grammar.thermal_start
+  else if String.eqb n "tally" then Gen.Grammar.tally_start
+  else if String.eqb n "tally_seg" then Gen.Grammar.tally_seg_start
+  else if String.eqb n "param_only" then Gen.Grammar.param_only_start
+  else if String.eqb n "classifier" then Gen.Grammar.classifier_start
+  else "".
+
+(* the start symbols the proofs use are the generated ones *)
+Definition expected_starts : list (string * string) :=
+  [("cell", "cell"); ("surface", "surface"); ("data", "data_input"); ("material", "material");
+   ("thermal", "thermal_mat"); ("tally", "tally"); ("tally_seg", "tally"); ("param_only", "param_data_input");
+   ("classifier", "data_classifier")].
+Definition wrong_starts : list (string * string) :=
+  filter (fun p => negb (String.eqb (start_of (fst p)) (snd p))) expected_starts.
+
+Section AllShapes.
+Hypothesis Hcell : incl required_cell Gen.Grammar.cell_productions.
+Hypothesis Hsurf : incl required_surface Gen.Grammar.surface_productions.
+Hypothesis Hdata : incl required_data Gen.Grammar.data_productions.
+Hypothesis Hmat : incl required_material Gen.Grammar.material_productions.
+Hypothesis Hth : incl required_thermal Gen.Grammar.thermal_productions.
+Hypothesis Htal : incl required_tally Gen.Grammar.tally_productions.
+Hypothesis Hseg : incl required_tally_seg Gen.Grammar.tally_seg_productions.
+Hypothesis Hsd : incl required_param_only Gen.Grammar.param_only_productions.
+Hypothesis Hstart : wrong_starts = [].
+
+Lemma start_ok : forall n s, In (n, s) expected_starts -> start_of n = s.
+Proof.
+  intros n s Hin. destruct (String.eqb (start_of n) s) eqn:E; [apply String.eqb_eq; exact E|].
+  assert (Hf : In (n, s) wrong_starts).
+  { unfold wrong_starts. apply filter_In. split; [exact Hin|]. simpl. rewrite E. reflexivity. }
+  rewrite Hstart in Hf. inversion Hf.
+Qed.
+
+Theorem shape_derivable : forall mask sh, shape_ok_b sh = true ->
+  Derives (productions_of (parser_of sh)) (start_of (parser_of sh)) (classes (gen_case mask sh)).
+Proof.
+  intros mask sh H. rewrite gen_case_classes. destruct sh; simpl parser_of; simpl in H.
+  - rewrite (start_ok "cell" "cell") by (simpl; auto). apply (cell_derivable _ Hcell). exact H.
+  - rewrite (start_ok "surface" "surface") by (simpl; auto). apply (surface_derivable _ Hsurf). exact H.
+  - rewrite (start_ok "data" "data_input") by (simpl; auto). apply (data_derivable _ Hdata). exact H.
+  - rewrite (start_ok "material" "material") by (simpl; auto 10). apply (material_derivable _ Hmat). exact H.
+  - rewrite (start_ok "thermal" "thermal_mat") by (simpl; auto 10). apply (thermal_derivable _ Hth).
+    unfold mtcard_shape. apply negb_true_iff in H. apply Nat.eqb_neq in H. exact H.
+  - rewrite (start_ok "tally" "tally") by (simpl; auto 10). apply (tally_derivable _ Htal). exact H.
+  - rewrite (start_ok "tally_seg" "tally") by (simpl; auto 10). apply (tallyseg_derivable _ Hseg). exact H.
+  - rewrite (start_ok "param_only" "param_data_input") by (simpl; auto 10). apply (sdef_derivable _ Hsd). exact H.
+  - rewrite (start_ok "data" "data_input") by (simpl; auto). apply (text_derivable _ Hdata).
+Qed.
+End AllShapes.
